@@ -1,10 +1,17 @@
 (** Proofs about the upgrade model Eio/Upgrade.v: the invariant of Eio/UpgradeInv.v is inductive
-    (one lemma per label, in the UpgradeInv?*.v files), hence holds in every reachable state, for
+    (one lemma per label, in the UpgradeInv_*.v files), hence holds in every reachable state, for
     ALL schedules; at quiescence it gives exactly-once delivery in both directions. *)
 From SioV Require Import Base.GoSem Base.Conc Eio.Upgrade Eio.UpgradeInv.
-From SioV Require Import Eio.UpgradeInvA Eio.UpgradeInvB0 Eio.UpgradeInvB1 Eio.UpgradeInvB2 Eio.UpgradeInvB3
-  Eio.UpgradeInvB4 Eio.UpgradeInvC Eio.UpgradeInvD0 Eio.UpgradeInvD1 Eio.UpgradeInvD2 Eio.UpgradeInvD3
-  Eio.UpgradeInvD4 Eio.UpgradeInvE Eio.UpgradeInvF Eio.UpgradeInvG Eio.UpgradeInvH.
+From SioV Require Import Eio.UpgradeInv_SSend Eio.UpgradeInv_CSend Eio.UpgradeInv_CPollStart
+  Eio.UpgradeInv_GetArrive Eio.UpgradeInv_GetRoute Eio.UpgradeInv_GetFirst Eio.UpgradeInv_GetWake
+  Eio.UpgradeInv_RespDeliver Eio.UpgradeInv_PostOk Eio.UpgradeInv_CDial Eio.UpgradeInv_SAccept
+  Eio.UpgradeInv_CDialOk Eio.UpgradeInv_CDialFail Eio.UpgradeInv_SRecvWs Eio.UpgradeInv_CRecvWs
+  Eio.UpgradeInv_CSwap Eio.UpgradeInv_SNoopGo Eio.UpgradeInv_SDiscGo Eio.UpgradeInv_STimerFire
+  Eio.UpgradeInv_CTimerFire Eio.UpgradeInv_CTimerClose Eio.UpgradeInv_Refuse Eio.UpgradeInv_Stall
+  Eio.UpgradeInv_Cut Eio.UpgradeInv_SSeeCut Eio.UpgradeInv_CSeeCut Eio.UpgradeInv_SOldClose
+  Eio.UpgradeInv_COldClose Eio.UpgradeInv_PostDeliver Eio.UpgradeInv_STimerClose_CNone
+  Eio.UpgradeInv_STimerClose_CWait Eio.UpgradeInv_STimerClose_CProbed Eio.UpgradeInv_STimerClose_CUp
+  Eio.UpgradeInv_STimerClose_CDead.
 From Coq Require Import Lia.
 
 (** ** Superseded close *)
@@ -34,16 +41,6 @@ Definition sched_timer_race : list label :=
    STimerFire; SRecvWs; STimerClose; SSend].
 
 (** ** The invariant is inductive *)
-
-Lemma inv_SRecvWs n st st' : inv n st -> step SRecvWs st = Some st' -> inv n st'.
-Proof.
-  intros I H. destruct (s_cand st) eqn:E.
-  - exact (inv_SRecvWs_CNone n st st' E I H).
-  - exact (inv_SRecvWs_CWait n st st' E I H).
-  - exact (inv_SRecvWs_CProbed n st st' E I H).
-  - exact (inv_SRecvWs_CUp n st st' E I H).
-  - exact (inv_SRecvWs_CDead n st st' E I H).
-Qed.
 
 Lemma inv_STimerClose n st st' : inv n st -> step STimerClose st = Some st' -> inv n st'.
 Proof.
